@@ -285,11 +285,48 @@ func (c ConstantMap) Link(scope Scope, t TypeSpec) (ConstantValue, error) {
 			return nil, err
 		}
 
-		// TODO(abg): Duplicate key check
 		items[i] = ConstantValuePair{Key: key, Value: value}
 	}
 
+	seen := make(map[interface{}]struct{}, len(items))
+	for _, item := range items {
+		k, ok := comparableConstant(item.Key)
+		if !ok {
+			continue
+		}
+		if _, dup := seen[k]; dup {
+			return nil, constantValueCastError{
+				Value:  c,
+				Type:   t,
+				Reason: fmt.Errorf("key %v appears more than once", item.Key),
+			}
+		}
+		seen[k] = struct{}{}
+	}
+
 	return ConstantMap(items), nil
+}
+
+// comparableConstant returns a comparable form of a linked constant of a
+// primitive or enum type, following references to other constants. It
+// reports false for lists, sets, maps and structs.
+func comparableConstant(v ConstantValue) (interface{}, bool) {
+	switch c := v.(type) {
+	case ConstantBool, ConstantInt, ConstantString, ConstantDouble:
+		return c, true
+	case EnumItemReference:
+		if c.Enum != nil && c.Item != nil {
+			return struct {
+				enum  *EnumSpec
+				value int32
+			}{c.Enum, c.Item.Value}, true
+		}
+	case ConstReference:
+		if c.Target != nil {
+			return comparableConstant(c.Target.Value)
+		}
+	}
+	return nil, false
 }
 
 // ConstantSet represents a set of constant values from the Thrift file.
@@ -303,14 +340,25 @@ func (c ConstantSet) Link(scope Scope, t TypeSpec) (ConstantValue, error) {
 	}
 
 	// TODO(abg): Track whether things are linked so that we don't re-link here
-	// TODO(abg): Fail for duplicates
 	values := make([]ConstantValue, len(c))
+	seen := make(map[interface{}]struct{}, len(c))
 	for i, v := range c {
 		value, err := v.Link(scope, s.ValueSpec)
 		if err != nil {
 			return nil, err
 		}
 		values[i] = value
+
+		if k, ok := comparableConstant(value); ok {
+			if _, dup := seen[k]; dup {
+				return nil, constantValueCastError{
+					Value:  c,
+					Type:   t,
+					Reason: fmt.Errorf("item %v appears more than once", value),
+				}
+			}
+			seen[k] = struct{}{}
+		}
 	}
 
 	return ConstantSet(values), nil
